@@ -54,7 +54,7 @@ def run_check(ctx):
     enable = progcheck.replay_known(ctx)
     n, ns = (12000, 8) if ctx.tier == "thorough" else (560, 5)
     progcheck.run_gen(ctx, "C06", BASE | enable, n, ns, depth=2, nest=2, lo=1, hi=4,
-                      nontrivial=_nontrivial, classify=_classify)
+                      nontrivial=_nontrivial, classify=_classify, native_all=(ctx.tier == "thorough"))
     for c in ("class:hybrid:post", "class:hybrid:call", "class:hybrid:stmtexpr", "class:hybrid in if-condition",
               "class:hybrid as loop step"):
         if ctx.classes.get(c, 0) == 0:
